@@ -160,6 +160,17 @@ def check(case):
                 changed_something = True
                 labels.add("changed:set_all")
 
+    # ---- the result of set_params does not depend on the order of the keyword arguments (GridSearchCV / ParameterGrid sort them)
+    for order_name, keyfn, rev in (("sorted", None, False), ("reverse-sorted", None, True)):
+        src = _guard("construct", lambda: R.build(case["A"]), facts)
+        dst = _guard("construct", lambda: R.build(case["B"]), facts)
+        params = {k: _copy_value(v) for k, v in src.get_params(deep=True).items()}
+        ordered = dict(sorted(params.items(), key=lambda kv: kv[0], reverse=rev))
+        want = {k: R.norm_param(v) for k, v in params.items()}
+        _guard("set_all", lambda: dst.set_params(**ordered), dict(facts, key_kind="all", order=order_name))
+        after = R.params_image(dst)
+        require(after == want, "set_all:params-differ:" + order_name + "-keys", _diff(after, want), dict(facts, order=order_name))
+
     # ---- behaves identically: B configured from A's params == A
     if entry is not None and data is not None:
         X, y, w = R.materialize(data)
